@@ -380,6 +380,19 @@ Ack ==
              ELSE mm
   /\ UNCHANGED <<phase, tc, ts, cnt>>
 
+\* Tor refuses the oldest close command (5xx: an unrecognised reason or flag, an id it no longer knows).  For a
+\* circuit the request that issued the command fails, later requests keep waiting for the circuit to go away; a
+\* stream's close requests all keep waiting for the stream to go away (the refusal is only logged).
+Nack ==
+  /\ m.pendAck # <<>> /\ Head(m.pendAck)[1] # "B"
+  /\ LET a == Head(m.pendAck)
+         nxt == IF Len(m.pendAck) > 1
+                THEN << <<IF m.pendAck[2][1] = "C" THEN "CLOSECIRCUIT" ELSE "CLOSESTREAM", m.pendAck[2][2]>> >>
+                ELSE <<>>
+         mm == [Reset(m) EXCEPT !.pendAck = Tail(@), !.wrote = nxt]
+     IN m' = IF a[1] = "C" THEN FireW(mm, a[3], "err") ELSE mm
+  /\ UNCHANGED <<phase, tc, ts, cnt>>
+
 Init ==
   /\ phase = "pre"
   /\ tc = [c \in CircIds |-> NoC] /\ ts = [s \in StreamIds |-> NoS]
@@ -409,6 +422,7 @@ Next ==
   \/ Snapshot
   \/ UserNext /\ cnt.user < MaxUser
   \/ Ack
+  \/ Nack
 
 Spec == Init /\ [][Next]_vars
 
@@ -456,7 +470,9 @@ CloseWaits ==
      /\ (m.w[x].k = "closec" /\ m.w[x].out = "ok") => ~m.c[m.w[x].id].live
      /\ (m.w[x].k = "closes" /\ m.w[x].out = "ok") => ~m.s[m.w[x].id].live
      /\ (m.w[x].k = "closed" /\ m.w[x].out = "ok") => ~m.c[m.w[x].id].live
-     /\ (m.w[x].k \in {"closec", "closed"} /\ ~m.c[m.w[x].id].live /\ m.pendAck = <<>>) => m.w[x].out = "ok"
+     /\ (m.w[x].k = "closed" /\ ~m.c[m.w[x].id].live /\ m.pendAck = <<>>) => m.w[x].out = "ok"
+     \* (a close request whose command Tor refused has failed; every other one completes)
+     /\ (m.w[x].k = "closec" /\ ~m.c[m.w[x].id].live /\ m.pendAck = <<>>) => m.w[x].out # "p"
      /\ (m.w[x].k = "closes" /\ ~m.s[m.w[x].id].live) => m.w[x].out = "ok"
 TypeOK == phase \in {"pre", "live"}
 =============================================================================
